@@ -16,7 +16,7 @@ COMPONENTS = {'real': ['src/interpret.c', 'src/frame.c', 'src/stack.c', 'src/err
               'stub': ['kernel sockets/clock/timer (simulated)'], 'hook': ['per-instruction callback: call depth, value-stack height and size of the value on top of the stack']}
 ASSUMPTIONS = ['set_eval_limit/reset_eval_cost are excluded (documented privileged override)',
                'the size invariant is observed on the value on top of the stack at every instruction and on builder results; the builder list is a sample of the operator/efun surface']
-SPINS = ['sp_while', 'sp_for', 'sp_dowhile', 'sp_foreach', 'sp_foreach_map', 'sp_foreach_str', 'sp_whiledec', 'sp_loopcond', 'sp_looplocal',
+SPINS = ['sp_while', 'sp_for', 'sp_dowhile', 'sp_foreach', 'sp_foreach_map', 'sp_foreach_str', 'sp_whiledec', 'sp_loopcond', 'sp_looplocal', 'sp_objname',
          'rc_direct', 'rc_mut_a', 'rc_fp', 'rc_filter', 'rc_map', 'rc_sort', 'rc_unique', 'rc_callother', 'rc_catch', 'rc_catch2', 'rc_fpargs', 'rc_spread', 'rc_efunfp']
 BUILDS = ['str+=', 'str+', 'gstr+=', 'sprintf', 'repeat', 'replace', 'implode', 'arr+=', 'arr+', 'garr+=', 'allocate', 'explode', 'map+', 'mapins',
           'gmapins', 'allocmap', 'allocbuf', 'buf+', 'copy', 'keys', 'strrange', 'arrrange', 'bufrange', 'gstrrange', 'replace5', 'replace1', 'spad', 'spadr',
@@ -27,7 +27,9 @@ def gen(rng, tier, i):
     p = Plan()
     # a master without error_handler() matters: the handler apply at full call depth would itself hit the limit and mark the error
     r0 = rng.random()
-    p.file('mcfg.h', mcfg({'NO_ERROR_HANDLER': 1} if r0 < 0.3 else ({'EH_CATCH': 1} if r0 < 0.55 else {})))
+    defs = {'NO_ERROR_HANDLER': 1} if r0 < 0.3 else ({'EH_CATCH': 1} if r0 < 0.55 else {})
+    if rng.random() < 0.3: defs['OBJECT_NAME_SPIN'] = 1
+    p.file('mcfg.h', mcfg(defs))
     p.cfg('Port', '4000:telnet')
     lim = {'MaxEvaluationCost': rng.choice((3000, 6000, 20000, 40000)), 'MaxCallDepth': rng.choice((16, 17, 20, 25, 30, 31, 60)),
            'StackSize': rng.choice((150, 300, 1000)), 'MaxArraySize': rng.choice((64, 500, 15000, 70000)),
